@@ -69,6 +69,8 @@ def gen_plan(seed: int, tier: str) -> dict:
         if mode == "global":
             req["global"] = r.choice(CODES + [-70499])
             req["global_keep"] = r.randrange(0, n + 1)
+            req["global_form"] = r.choice(["list", "list", "nolist"]) if req["global_keep"] == 0 else "list"
+            req["global_http"] = r.choice([207, 207, 500, 503])
         if kind == "put":
             req["values"] = [r.choice([True, False, 0, 1, 55, "s"]) for _ in ids]
         reqs.append(req)
@@ -123,6 +125,11 @@ def execute_ip(plan: dict, ch: Chooser) -> dict:
             readable = {i for i in ids if "pr" in w.acc.perms[i]}
             writable = {i for i in ids if "pw" in w.acc.perms[i]}
             kind = req["kind"]
+            if "global" in req and kind == "put":
+                # a request-wide failure: the accessory rejects (does not apply) every item its reply will not mention
+                for pos, i in enumerate(ids):
+                    if pos >= req["global_keep"]:
+                        st[i] = st[i] or req["global"]
             w.status_plan = {("r" if kind == "get" else "w", a, i): s for (a, i), s in st.items() if s}
             sent: dict = {}
 
@@ -137,7 +144,9 @@ def execute_ip(plan: dict, ch: Chooser) -> dict:
                     sent["mentioned"] = set(sent["eff"])
                     for e in keep:
                         e.setdefault("status", 0)
-                    return (207, {"status": req["global"], "characteristics": keep})
+                    if kind == "put" and req.get("global_form") == "nolist":
+                        return (req.get("global_http", 207), {"status": req["global"]})
+                    return (req.get("global_http", 207) if kind == "put" else 207, {"status": req["global"], "characteristics": keep})
                 g = req["garble"]
                 if g == "zero207" and code == 204:
                     return 207, obj
@@ -159,6 +168,17 @@ def execute_ip(plan: dict, ch: Chooser) -> dict:
                     res = await p.put_characteristics([(a, i, v) for (a, i), v in zip(ids, req["values"])])
             except Exception as e:  # noqa: BLE001
                 garb = req["garble"] or ("global" if "global" in req else "plain")
+                if kind == "put":
+                    applied_x = {(a, i) for (_, a, i, _) in w.acc.writes_applied[applied_before:]}
+                    told = set()
+                    for ev in notes:
+                        told |= set(ev.keys())
+                    if set(ids) - applied_x and not (told - applied_x):
+                        # "(or the call fails)": a write with a rejected characteristic may fail as a whole, as long as no
+                        # listener was told of a value the accessory did not accept
+                        ctx.probe("put_failed_as_a_whole")
+                        ctx.event("req", idx, "put failed as a whole", type(e).__name__)
+                        continue
                 ctx.violate(f"{kind}-raises", f"ip/{type(e).__name__}/{garb}", f"ip {kind} {ids} with statuses {req['status']} garble={req['garble']} raised {e!r}")
                 ctx.event("req", idx, "raised", type(e).__name__)
                 # the connection may have been dropped by the library; carry on with the next request
@@ -189,7 +209,7 @@ def execute_ip(plan: dict, ch: Chooser) -> dict:
                     got = res.get(i)
                     true_status = eff.get(i, st.get(i))
                     if "global" in sent and i not in sent.get("mentioned", set()):
-                        continue  # reply does not mention it; request-wide status on writes is not specified by the property
+                        true_status = sent["global"]  # the only status the reply conveys for it is the request-wide one
                     if got is None or not got.get("status"):
                         ctx.violate("put-rejected-presented-as-written", "ip", f"ip put: {i} was rejected by the accessory (status {true_status}) but reported as {got}")
                     elif true_status and got.get("status") != true_status:
@@ -202,9 +222,7 @@ def execute_ip(plan: dict, ch: Chooser) -> dict:
                 for ev in notes:
                     notified |= set(ev.keys())
                 want = {i for i in applied if i in readable}
-                if "global" in sent:
-                    pass
-                elif notified != want:
+                if notified != want:
                     ctx.violate("put-listener-notifications", "ip/" + ("missing" if want - notified else "extra"),
                                 f"ip put {ids}: accessory accepted {sorted(applied)} (readable {sorted(want)}), listeners were notified for {sorted(notified)}; "
                                 f"reply code {'207' if eff and any(eff.values()) or req['garble'] == 'zero207' else '204'}")
